@@ -42,6 +42,7 @@ FIXED = [
  (["C06"], "fix: XORPS rejects a memory operand that is not 16-byte aligned", "XORPS with a misaligned m128 completed instead of failing (native #GP)"),
  (["C13"], "fix: brk with an address below the heap start", "brk(p) with p below the heap base panicked ('attempt to subtract with overflow')"),
  (["C19"], "fix: PUSH, POP, CALL and RET wrap the stack pointer", "push/pop/call/ret panicked ('attempt to add/subtract with overflow') with RSP at the top or bottom of the address space; found after C19's register states were extended with all-zero / all 2^64-8 and areas at both ends of the address space (keys step|panic@src/instructions/{push,pop,call,ret}.rs(attempt to … with overflow))"),
+ (["C16"], "fix: ELF loader no longer overflows computing the TLS end", "a file with a PT_LOAD on the last page of the address space and a PT_TLS header at the same p_vaddr panicked ('attempt to add with overflow' in `segment.p_vaddr + a.len()`); found after C16 gained pairs of the same field in two program headers, prompted by a sub-agent's remark (key elf-load|panic@src/elf/elf.rs(attempt to add with overflow)|pair(same field, two program headers))"),
  (["C16"], "fix: debug builds no longer panic on an unknown ELF segment type", "in builds with debug assertions an unknown p_type with p_vaddr == 0 panicked inside a debug_log! argument ('Unknown segment type'); found by the dev-like profile run of the thorough tier (keys devlike|elf-load|panic@src/elf/elf.rs(Unknown segment type)|*)"),
 ]
 
